@@ -7,7 +7,7 @@ WT=/tmp/wt-$ID; SRC=$WT/_out/$V; OUT=/verif/seeded/$ID-$V
 export GOFLAGS=-mod=mod GOPROXY=off GOSUMDB=off GOTOOLCHAIN=local
 HEAD=$(git -C /repo rev-parse HEAD)
 cd $WT || exit 2
-git checkout -q -- . ; git checkout -q --detach $HEAD || exit 2
+git reset -q --hard; git checkout -q --detach $HEAD || exit 2
 DEMO=$(ls $SRC/*_test.go $SRC/*.go 2>/dev/null | head -1)
 [ -f "$SRC/patch.diff" ] && [ -n "$DEMO" ] || { echo "$ID-$V: missing files"; exit 2; }
 PKG=$(grep -m1 '^package ' $DEMO | awk '{print $2}' | sed 's/_test$//')
@@ -16,14 +16,14 @@ TESTS=$(grep -o '^func Test[A-Za-z0-9_]*' $DEMO | sed 's/func //' | paste -sd'|'
 mkdir -p $OUT; cp $SRC/patch.diff $OUT/; cp $DEMO $OUT/; cp $SRC/NOTES.md $OUT/ 2>/dev/null
 APPLY=ok; git apply --check $SRC/patch.diff 2>$OUT/apply.err || APPLY=fail
 if [ $APPLY = fail ]; then git apply --3way $SRC/patch.diff 2>>$OUT/apply.err && APPLY=3way; fi
-if [ $APPLY = fail ]; then echo "$ID-$V: patch does not apply to HEAD"; echo "{\"id\":\"$ID-$V\",\"applies\":false}" > $OUT/meta.json; git checkout -q -- .; exit 1; fi
+if [ $APPLY = fail ]; then echo "$ID-$V: patch does not apply to HEAD"; echo "{\"id\":\"$ID-$V\",\"applies\":false}" > $OUT/meta.json; git reset -q --hard; exit 1; fi
 [ $APPLY = ok ] && git apply $SRC/patch.diff
 git diff > $OUT/patch.diff
 BUILD=ok; go build ./... 2>$OUT/build.err || BUILD=fail
 SUITE=$(flock /tmp/pike-suite.lock go test -vet=off -count=1 ./... 2>&1 | grep -E '^(ok|FAIL|---)' | grep -E '^FAIL|^--- FAIL' | sort | tr '\n' ';')
 cp $DEMO $DIR/
 WITH=$(go test -vet=off -count=1 -run "^($TESTS)\$" ./$DIR/ 2>&1 | tail -3 | tr '\n' ' ')
-git checkout -q -- . 
+git reset -q --hard
 WITHOUT=$(go test -vet=off -count=1 -run "^($TESTS)\$" ./$DIR/ 2>&1 | tail -3 | tr '\n' ' ')
 rm -f $DIR/$(basename $DEMO)
 python3 - "$ID" "$V" "$APPLY" "$BUILD" "$SUITE" "$WITH" "$WITHOUT" "$HEAD" "$DIR" "$TESTS" <<'PY' > $OUT/meta.json
